@@ -420,6 +420,12 @@ impl Monitor {
                     }
                 }
             }
+            // C01 (seen at one node): everything delivered lies on one chain
+            if let Some(prev) = self.commits.last() {
+                if !self.is_ancestor_or_self(&prev.digest(), b) && !self.is_ancestor_or_self(&b.digest(), prev) {
+                    rep.finding("impl_vs_property", "C01:conflicting-commits", format!("delivered round {} and round {} are not on one chain", prev.round, b.round), replay.clone());
+                }
+            }
             if self.commits.iter().any(|x| x.digest() == b.digest()) {
                 rep.finding("impl_vs_property", "C02:delivered-twice", format!("round {}", b.round), replay.clone());
             }
